@@ -125,7 +125,7 @@ func DecodeVisualSampleEntrySR(hdr BoxHeader, startPos uint64, sr bits.SliceRead
 
 	// Now there may be clap and pasp boxes
 	// 14496-15  5.4.2.1.2 avcC should be inside avc1, avc3 box
-	pos := startPos + 86 // Size of all previous data
+	pos := startPos + uint64(hdr.Hdrlen) + 78 // Size of all previous data
 	endPos := startPos + uint64(hdr.Hdrlen) + uint64(hdr.payloadLen())
 	for pos < endPos {
 		box, err := DecodeBoxSR(pos, sr)
